@@ -101,8 +101,33 @@ pub fn values_coord_targets<G: GroupApi>(seed: u64, tier: Tier) -> Vec<Val<G>> {
         ts.push(mulm(&from_limbs(&l), &ri, q));
     }
     let ts = mccore::alpha::dedup(ts);
+    // quotient-boundary bands of the small-multiple primitives (double, triple, halve): stored words a with 2a resp.
+    // 3a next to a multiple of q, and next to k * q[3] * 2^192 (the top-limb estimate of that multiple); these are
+    // targets for the coordinate itself AND for its square (doubling computes 3 X^2, Y^2, ...)
+    let mut band: Vec<N> = vec![];
+    {
+        let t192 = N::from(top) << 192u32;
+        for k in 1u64..=2 {
+            for den in [2u64, 3] {
+                if k >= den {
+                    continue;
+                }
+                let hi_edge = (q * n(k)) / n(den); // den * a crosses k q between hi_edge and hi_edge + 1
+                let lo_edge = (&t192 * n(k)) / n(den);
+                for e in [hi_edge.clone(), &hi_edge + n(1), &hi_edge - n(1), lo_edge.clone(), &lo_edge + n(1), (&hi_edge + &lo_edge) / n(2)] {
+                    if &e < q {
+                        band.push(mulm(&e, &ri, q));
+                    }
+                }
+            }
+        }
+    }
+    let band = mccore::alpha::dedup(band);
+    let nts = ts.len();
+    let mut ts = ts;
+    ts.extend(band.iter().cloned());
     let mut out = vec![];
-    for t in &ts {
+    for (ti, t) in ts.iter().enumerate() {
         let mut embs = G::scale_embeddings(t);
         if embs.len() > 1 {
             // mixed: t + u
@@ -114,17 +139,34 @@ pub fn values_coord_targets<G: GroupApi>(seed: u64, tier: Tier) -> Vec<Val<G>> {
             if tf.is_zero() {
                 continue;
             }
-            for which in 0..2 {
+            // which: 0 X = t, 1 Y = t, 2 X^2 = t, 3 Y^2 = t (the squares only for the band targets)
+            for which in 0..(if ti >= nts { 4 } else { 2 }) {
+                let tgt = if which >= 2 {
+                    match G::rf_sqrt(&tf) {
+                        Some(s) => s,
+                        None => continue,
+                    }
+                } else {
+                    tf.clone()
+                };
                 for d in 1u64..=24 {
                     let p = ref_mul::<G>(&n(d));
                     let (x, y) = p.xy().unwrap();
-                    let sc = if which == 0 { x.inv().and_then(|xi| G::rf_sqrt(&tf.mul(&xi))) } else { y.inv().and_then(|yi| G::rf_cbrt(&tf.mul(&yi))) };
+                    let sc = if which % 2 == 0 { x.inv().and_then(|xi| G::rf_sqrt(&tgt.mul(&xi))) } else { y.inv().and_then(|yi| G::rf_cbrt(&tgt.mul(&yi))) };
                     if let Some(sc) = sc {
                         if !sc.is_zero() {
                             if let Some(v) = build::<G>(&n(d), &Rep::Scaled(sc)) {
                                 let (vx, vy, _) = v.v.coords();
                                 // the construction is self-checking
-                                assert!(if which == 0 { vx == tf } else { vy == tf }, "coordinate target not met");
+                                assert!(
+                                    match which {
+                                        0 => vx == tf,
+                                        1 => vy == tf,
+                                        2 => vx.sq() == tf,
+                                        _ => vy.sq() == tf,
+                                    },
+                                    "coordinate target not met"
+                                );
                                 out.push(v);
                                 break;
                             }
